@@ -16,7 +16,7 @@ from pysym import core, dft, fp, repo_module
 from pysym.core import SComplex, SInt, SReal, sym_array
 from pysym.linearize import prove_zero
 from pysym.npfacade import BUILTINS
-from pysym.runner import Harness
+from pysym.runner import ConcreteViolation, Harness
 from pysym.util import carray_from_model, crandn, search_witness
 
 PROPERTY = 'C02'
@@ -77,11 +77,72 @@ def config_class(fft, cp, used, n):
     return ','.join((a, b, c))
 
 
-def finding_key(clause, fft, cp, used, n, delays=None):
+def finding_key(clause, fft, cp, used, n, delays=None, history=None):
+    # an object that was configured differently before is its own input
+    # class: a defect that needs a re-configured object gets its own key
+    re_ = ',reconfigured-object' if history else ''
     if clause == 'equalize':
         return 'C02/equalize/' + ('maxdelay=fft' if delays and
-                                  max(delays) == fft else 'maxdelay<fft')
-    return 'C02/%s/%s' % (clause, config_class(fft, cp, used, n))
+                                  max(delays) == fft else 'maxdelay<fft') + re_
+    return 'C02/%s/%s%s' % (clause, config_class(fft, cp, used, n), re_)
+
+
+# ---------------------------------------------------------------------------
+# object histories: the OFDM object is built with a PREVIOUS configuration,
+# used (modulate + demodulate of concrete data), then re-configured through
+# the public API before the configuration under check is exercised
+def make_ofdm(fft, cp, used, history=None):
+    """history = dict(prevs=[[fft, cp, used], ...], via='set_parameters' |
+    'attributes') or None (fresh object)"""
+    ofdm = repo_module(OF)
+    if not history:
+        return ofdm.OFDM(fft, cp, used)
+    rs = np.random.RandomState(12345)
+    o = None
+    with concrete_section():          # plain numpy: previous uses are concrete
+        for (pf, pc, pu) in history['prevs']:
+            if o is None:
+                o = ofdm.OFDM(pf, pc, pu)
+            else:
+                o.set_parameters(pf, pc, pu)
+            for n in (pu + 1, 1):
+                d = rs.randn(n) + 1j * rs.randn(n)
+                o.demodulate(np.array(o.modulate(d)))
+    if history.get('via') == 'attributes':
+        # the three parameters are plain public attributes
+        o.fft_size = fft
+        o.cp_size = cp
+        o.num_used_subcarriers = used
+    else:
+        o.set_parameters(fft, cp, used)
+    return o
+
+
+def histories_for(fft, cp, used):
+    """previous configurations that differ from (fft, cp, used) across one
+    boundary each"""
+    out = []
+    if used < fft:
+        # the same number of used subcarriers filling a smaller FFT entirely
+        out.append(dict(prevs=[[used, min(cp, used), used]],
+                        via='set_parameters'))
+        out.append(dict(prevs=[[fft, cp, used], [used, 0, used]],
+                        via='attributes'))
+    else:
+        # the same number of used subcarriers inside a larger FFT
+        out.append(dict(prevs=[[4 * fft, cp, used]], via='set_parameters'))
+        out.append(dict(prevs=[[fft, cp, used], [2 * fft + 1, 1, used]],
+                        via='attributes'))
+    # same FFT and carriers, other prefix
+    out.append(dict(prevs=[[fft, (cp + 1) % (fft + 1), used]],
+                    via='set_parameters'))
+    # same FFT and prefix, other number of used subcarriers
+    other = used - 2 if used > 2 else (used + 2 if used + 2 <= fft else None)
+    if other:
+        out.append(dict(prevs=[[fft, cp, other]], via='set_parameters'))
+    # an unrelated large configuration
+    out.append(dict(prevs=[[64, 16, 52]], via='attributes'))
+    return out
 
 
 # ===========================================================================
@@ -148,7 +209,8 @@ def make_channel(taps, delays):
 
 # ===========================================================================
 # plain numpy reference run through the public API
-def numeric_case(fft, cp, used, x, delays=None, taps=None, channel=None):
+def numeric_case(fft, cp, used, x, delays=None, taps=None, channel=None,
+                 history=None):
     """-> (failed clauses of the property text, details)"""
     ofdm = repo_module(OF)
     x = np.asarray(x, dtype=complex)
@@ -157,10 +219,12 @@ def numeric_case(fft, cp, used, x, delays=None, taps=None, channel=None):
     ref = np.concatenate([x, np.zeros(nsym * used - n, dtype=complex)])
     mag = max(1.0, float(np.max(np.abs(x))))
     info = dict(fft=fft, cp=cp, used=used, n=n)
+    if history:
+        info['history'] = history
     bad = []
     with np.errstate(all='ignore'):
         try:
-            o = ofdm.OFDM(fft, cp, used)
+            o = make_ofdm(fft, cp, used, history)
             tx = np.array(o.modulate(x.copy()))
         except Exception as e:   # noqa
             return ['exception:' + type(e).__name__], dict(info, err=repr(e))
@@ -275,7 +339,15 @@ class RoundTrip(Harness):
                  OF + ':OFDM.modulate', OF + ':OFDM.demodulate')
     bounds = ('fft in {2,3,4,6,8} (quick) + 12 (thorough); every cp in '
               '0..fft; every even used in 2..fft; every input length n in '
-              '1..2*used+1; input entries symbolic complex')
+              '1..2*used+1; input entries symbolic complex.  Re-configured '
+              'objects: for the same fft sizes, cp in {0, fft/2, fft} (quick) '
+              '/ every cp (thorough), every even used and n in {1, used, '
+              'used+1, 2*used+1}, the object is first built and used '
+              '(concrete data) with 1-2 previous configurations -- same used '
+              'count filling a smaller FFT / inside a larger FFT, same FFT '
+              'with another prefix, same FFT with another used count, an '
+              'unrelated (64,16,52) -- and then re-configured by '
+              'set_parameters or by assigning the public attributes')
     stubs = ('np.fft.fft/ifft -> exact DFT matrix over Q(i,sqrt2,sqrt3) '
              '(pysym.dft)', )
     assumptions = ('floats are exact reals (the power scale sqrt is the '
@@ -295,12 +367,25 @@ class RoundTrip(Harness):
                     out.append(dict(fft=fft, cp=cp, used=used,
                                     ns=list(range(1, 2 * used + 2))))
         out[0]['big'] = True
+        # re-configured objects: previous configuration(s) used concretely,
+        # then the same obligations for the new configuration
+        for fft in (2, 3, 4, 6, 8) if tier == 'quick' else (2, 3, 4, 6, 8,
+                                                            12):
+            cps = sorted({0, fft // 2, fft}) if tier == 'quick' else range(
+                fft + 1)
+            for cp in cps:
+                for used in range(2, fft + 1, 2):
+                    for hist in histories_for(fft, cp, used):
+                        out.append(dict(
+                            fft=fft, cp=cp, used=used, history=hist,
+                            ns=sorted({1, used, used + 1, 2 * used + 1})))
         return out
 
     def sym(self, ctx, cfg):
         ofdm = repo_module(OF)
         fft, cp, used = cfg['fft'], cfg['cp'], cfg['used']
-        o = ofdm.OFDM(fft, cp, used)
+        o = make_ofdm(fft, cp, used, cfg.get('history'))
+        assert isinstance(o, ofdm.OFDM)
         xs = sym_array(ctx, 'x', max(cfg['ns']), kind='complex')
         guard = unused_bins(fft, used)
         for n in cfg['ns']:
@@ -333,6 +418,7 @@ class RoundTrip(Harness):
 
     def replay(self, cfg, name, model):
         fft, cp, used = cfg['fft'], cfg['cp'], cfg['used']
+        hist = cfg.get('history')
         n0 = _parse_n(name, None)
         ns = [n0] if n0 is not None else list(cfg['ns'])
         for n in ns:
@@ -341,14 +427,15 @@ class RoundTrip(Harness):
             infos = {}
 
             def check(x):
-                bad, info = numeric_case(fft, cp, used, x)
+                bad, info = numeric_case(fft, cp, used, x, history=hist)
                 infos['last'] = info
                 return bad
             bad, inp = search_witness(check, first,
                                       gen=lambda r: crandn(r, n), tries=8)
             if bad:
                 return dict(reproduced=True,
-                            key=finding_key(bad[0], fft, cp, used, n),
+                            key=finding_key(bad[0], fft, cp, used, n,
+                                            history=hist),
                             detail=dict(failed=bad, x=str(inp),
                                         info=infos.get('last')))
         return dict(reproduced=False, key=None,
@@ -356,20 +443,45 @@ class RoundTrip(Harness):
 
     def concrete(self, cfg, rng):
         fft, cp, used = cfg['fft'], cfg['cp'], cfg['used']
+        hist = cfg.get('history')
         k = 0
+
+        def run(f, c, u, n, h):
+            bad, info = numeric_case(f, c, u, crandn(rng, n), history=h)
+            if bad:
+                raise ConcreteViolation(
+                    finding_key(bad[0], f, c, u, n, history=h),
+                    dict(failed=bad, info=info))
+            return 1
         for n in cfg['ns']:
-            bad, info = numeric_case(fft, cp, used, crandn(rng, n))
-            assert not bad, (bad, info)
-            k += 1
+            k += run(fft, cp, used, n, hist)
+        if hist:
+            # the configurations the object went through are checked too
+            # (each with the history that precedes it)
+            pv = hist['prevs']
+            for i, (pf, pc, pu) in enumerate(pv):
+                h = dict(prevs=pv[:i], via='set_parameters') if i else None
+                k += run(pf, pc, pu, pu + 1, h)
         if cfg.get('big'):
             for (f, c, u) in ((16, 4, 10), (16, 0, 16), (16, 16, 14),
                               (64, 16, 52), (64, 16, 64), (64, 0, 2),
                               (64, 64, 62), (1024, 72, 600), (5, 2, 4),
                               (7, 7, 2), (9, 0, 8)):
                 for n in (1, u - 1, u, u + 1, 3 * u, 3 * u + 1):
-                    bad, info = numeric_case(f, c, u, crandn(rng, n))
-                    assert not bad, (bad, info)
-                    k += 1
+                    k += run(f, c, u, n, None)
+            # larger re-configured objects (executed only)
+            for prevs, (f, c, u) in (
+                    ([[16, 4, 16]], (32, 8, 16)),
+                    ([[16, 4, 16], [32, 8, 16]], (16, 0, 16)),
+                    ([[64, 16, 32]], (32, 32, 32)),
+                    ([[64, 16, 32], [32, 32, 32]], (64, 5, 32)),
+                    ([[64, 16, 52]], (64, 16, 64)),
+                    ([[64, 16, 64]], (128, 16, 64)),
+                    ([[1024, 72, 600]], (2048, 144, 600)),
+                    ([[600, 72, 600]], (1024, 72, 600))):
+                for via in ('set_parameters', 'attributes'):
+                    for n in (1, u + 1, 3 * u):
+                        k += run(f, c, u, n, dict(prevs=prevs, via=via))
         return k
 
 
@@ -401,7 +513,9 @@ class Equalize(Harness):
               '2,3,4,6,8 all layouts, all used, n in {1, used+1, 2*used+1}; '
               'fft 12 covering layouts, used in {2,6,10,12}.  Taps: symbolic '
               'complex, constant in time; tap powers 0/-3/-6 dB (normalised '
-              'by the real profile code); Ts = 1')
+              'by the real profile code); Ts = 1.  Re-configured OFDM objects '
+              '(histories of the roundtrip harness): fft 4,6,8 (+12 '
+              'thorough), cp = fft/2, every used, taps at delays {0, cp}')
     stubs = ('fading generator -> subclass of the real FadingSampleGenerator '
              'returning the same symbolic tap values for every sample',
              'np.fft.fft/ifft -> exact DFT (pysym.dft)')
@@ -445,13 +559,20 @@ class Equalize(Harness):
                     for lay in covering_layouts(cp):
                         add(12, cp, used, lay, [used + 1])
         out[0]['big'] = True
+        # re-configured OFDM objects (see RoundTrip) in front of the channel
+        for fft in (4, 6, 8) if tier == 'quick' else (4, 6, 8, 12):
+            cp = fft // 2
+            for used in range(2, fft + 1, 2):
+                for hist in histories_for(fft, cp, used)[:3]:
+                    add(fft, cp, used, [0, cp], [used + 1])
+                    out[-1]['history'] = hist
         return out
 
     def sym(self, ctx, cfg):
         ofdm = repo_module(OF)
         fft, cp, used = cfg['fft'], cfg['cp'], cfg['used']
         delays = cfg['delays']
-        o = ofdm.OFDM(fft, cp, used)
+        o = make_ofdm(fft, cp, used, cfg.get('history'))
         eq = ofdm.OfdmOneTapEqualizer(o)
         xs = sym_array(ctx, 'x', max(cfg['ns']), kind='complex')
         g = sym_array(ctx, 'g', len(delays), kind='complex')
@@ -500,7 +621,8 @@ class Equalize(Harness):
 
             def check(inp):
                 bad, info = numeric_case(fft, cp, used, inp[0], delays=delays,
-                                         taps=inp[1])
+                                         taps=inp[1],
+                                         history=cfg.get('history'))
                 infos['last'] = info
                 return bad
             bad, inp = search_witness(
@@ -508,7 +630,8 @@ class Equalize(Harness):
                 gen=lambda r: (crandn(r, n), crandn(r, len(delays))))
             if bad:
                 return dict(reproduced=True,
-                            key=finding_key(bad[0], fft, cp, used, n, delays),
+                            key=finding_key(bad[0], fft, cp, used, n, delays,
+                                            history=cfg.get('history')),
                             detail=dict(failed=bad, x=str(inp[0]),
                                         taps=str(inp[1]), delays=delays,
                                         info=infos.get('last')))
@@ -522,11 +645,13 @@ class Equalize(Harness):
         for n in cfg['ns']:
             bad, info = numeric_case(fft, cp, used, crandn(rng, n),
                                      delays=delays,
-                                     taps=crandn(rng, len(delays)))
-            if max(delays) == fft:
-                # the clause decided by the symbolic obligation + replay
-                bad = [b for b in bad if b != 'equalize']
-            assert not bad, (bad, info)
+                                     taps=crandn(rng, len(delays)),
+                                     history=cfg.get('history'))
+            if bad:
+                raise ConcreteViolation(
+                    finding_key(bad[0], fft, cp, used, n, delays,
+                                history=cfg.get('history')),
+                    dict(failed=bad, info=info))
             k += 1
         if cfg.get('big'):
             k += self._big(rng)
@@ -554,7 +679,11 @@ class Equalize(Harness):
                 assert ch.num_taps_with_padding - 1 <= cp
                 bad, info = numeric_case(fft, cp, used, crandn(rng, n),
                                          channel=ch)
-                assert not bad, (bad, info)
+                if bad:
+                    raise ConcreteViolation(
+                        finding_key(bad[0], fft, cp, used, n,
+                                    [ch.num_taps_with_padding - 1]),
+                        dict(failed=bad, info=info, profile=prof.name))
                 k += 1
         for fft, cp, used in ((16, 4, 10), (64, 16, 52), (64, 63, 2)):
             for _ in range(6):
@@ -564,7 +693,10 @@ class Equalize(Harness):
                                          crandn(rng, 2 * used + 1),
                                          delays=delays,
                                          taps=crandn(rng, len(delays)))
-                assert not bad, (bad, info)
+                if bad:
+                    raise ConcreteViolation(
+                        finding_key(bad[0], fft, cp, used, 2 * used + 1,
+                                    delays), dict(failed=bad, info=info))
                 k += 1
         return k
 
